@@ -9,8 +9,14 @@ and later invokes the callback exactly once (this is C10's guarantee) — synchr
 another goroutine (`async`), in which case the invocation is only known to have happened when
 `wg.Wait()` returns, or — on the path that returns without waiting — some time after the return.
 
+The server's response can also be given as the BYTES the server process puts on its stdout
+(`Resp.stream`): what the runner makes of them is then decided by the model of the length-prefixed
+reader (`Delimited.readAt .server`, with the 32-bit prefix arithmetic and the limit of that call
+site) — the same for the client's stdout behind the real client runner (`casesOfClientStream`).
+
 Core Lean only.
 -/
+import ConfModel.Model.Delimited
 namespace ConfModel.ServerRunner
 
 /-- class of a recorded outcome: passed · failed (the RPC ran) · set-up error · could not be run
@@ -36,6 +42,11 @@ inductive Resp
   | garbage | oversize   -- undecodable body / length prefix above the limit
   | cut (k len : Nat)    -- the first k bytes of a well-formed response of len bytes, then EOF
   | never                -- nothing until the 10 s time-out
+  /-- the bytes of the server's stdout (then end of file), whatever they are.  `body` is what
+  decoding says about the message behind the first length prefix *if the reader frames one*
+  (`none`: cannot be decoded; `some cert`: a response, with / without certificate) — protobuf
+  decoding is outside the model, framing is not. -/
+  | stream (d : List UInt8) (body : Option Bool)
   deriving DecidableEq, Repr
 
 structure Script where
@@ -70,6 +81,10 @@ def respCert : Resp → Option Bool
   | .oversize => none
   | .cut k len => if k < len then none else some false
   | .never => none
+  | .stream d body =>
+    match (Delimited.readAt .server ⟨d, [], .eofSeparate⟩).res with
+    | .msg _ => body
+    | _ => none
 
 /-- `for j := i; j < len(testCases); j++ { setOutcome(name_j, true, …) }` over `cnt` cases -/
 def marks (i cnt : Nat) (c : Class) : List (Nat × Class) := (List.range' i cnt).map (fun j => (j, c))
@@ -204,6 +219,22 @@ the callback carried an error, `failedToGetResultError`).  The callback comes fr
 goroutine. -/
 def caseOf (accepted : Bool) (answer : Option Kind) : Case :=
   if accepted then .answer (answer.getD .noresult) true else .refuse
+
+/-- the messages at the head of a list of read results -/
+def leadingMsgs : List Delimited.Res → Nat
+  | .msg _ :: t => leadingMsgs t + 1
+  | _ => 0
+
+/-- What the send loop sees of a batch of `n` cases when the real client runner reads the bytes `d`
+(then end of file) from the client's stdout after every request has been written: `consumeOutput`
+calls `ReadDelimitedMessage` (site `.client`) until it fails; the first `valid` frames are
+well-formed responses for cases 0, 1, … in turn (decoding is outside the model).  Every case whose
+response was framed and decoded keeps its answer; every other case gets its callback with
+`failedToGetResultError` when the reader gives up — whatever made it give up. -/
+def casesOfClientStream (n valid : Nat) (d : List UInt8) : List Case :=
+  let res := (Delimited.readAllWith (Delimited.readAt .client) (n + 1) ⟨d, [], .eofSeparate⟩).results
+  let k := min valid (leadingMsgs res)
+  (List.range n).map fun i => if i < k then .answer .pass true else .answer .noresult true
 
 /-- the `sync.WaitGroup` of the send loop for one attempted case: `Add(1)`, then `Done()` once per
 callback invocation and once more if `sendRequest` returned an error.  0 = balanced; a negative
